@@ -21,14 +21,25 @@ def showSpace (st : St) (s : Space) : String :=
     | none => "NONE"
   s!"{showPath s.id} bases={",".intercalate (s.bases.map showPath)} mro={mro} cells={showMembers s.cells} refs={showMembers s.refs}"
 
+/-- every space, then the model-level references -/
 def showState (st : St) : String :=
-  " | ".intercalate (sorted (st.spaces.map (showSpace st)))
+  " | ".intercalate (sorted (st.spaces.map (showSpace st))) ++ " || globals=" ++ ",".intercalate (sorted st.globals)
+
+/-- `k=3,m=4` -/
+def refsOf (s : String) : Option (List (String × Nat)) :=
+  (csv s).mapM (fun e => match e.splitOn "=" with
+    | [k, v] => v.toNat?.map (fun v => (k, v))
+    | _ => none)
 
 def parseOp (toks : List String) : Option Op :=
   match toks with
-  | ["newspace", parent, name, bases] => some (.newSpace (pathOf parent) name ((csv bases).map pathOf))
+  | ["newspace", parent, name, bases] => some (.newSpace (pathOf parent) name ((csv bases).map pathOf) [])
+  | ["newspace", parent, name, bases, refs] =>
+    (refsOf refs).map (fun rs => .newSpace (pathOf parent) name ((csv bases).map pathOf) rs)
   | ["delspace", p] => some (.delSpace (pathOf p))
-  | ["newcells", p, name, v] => v.toNat?.map (fun v => .newCells (pathOf p) name v)
+  | ["newcells", p, name, v] => v.toNat?.map (fun v => .newCells (pathOf p) name name v)
+  -- the name given (anything that is not a valid name when none was given) and the name of the formula
+  | ["newcells", p, name, fname, v] => v.toNat?.map (fun v => .newCells (pathOf p) name fname v)
   | ["setformula", p, name, v] => v.toNat?.map (fun v => .setFormula (pathOf p) name v)
   | ["delcells", p, name] => some (.delCells (pathOf p) name)
   | ["rename", p, old, new] => some (.renameCells (pathOf p) old new)
